@@ -200,6 +200,30 @@ func c05Filters(thorough bool) []*bt.Filter {
 			}
 		}
 	}
+	if thorough {
+		// depth 3 over the whole 21-leaf basis, depth 4 over the 8-leaf basis
+		for _, a := range b20 {
+			for _, b := range b20 {
+				for _, d := range b20 {
+					fs = append(fs, &bt.Filter{Kind: "chain", Subs: []*bt.Filter{a, b, d}})
+					fs = append(fs, &bt.Filter{Kind: "interleave", Subs: []*bt.Filter{a, b, d}})
+					fs = append(fs, &bt.Filter{Kind: "cond", Pred: a, True: b, False: d})
+					fs = append(fs, &bt.Filter{Kind: "chain", Subs: []*bt.Filter{{Kind: "interleave", Subs: []*bt.Filter{a, b}}, d}})
+				}
+			}
+		}
+		for _, a := range b8 {
+			for _, b := range b8 {
+				for _, d := range b8 {
+					for _, e := range b8 {
+						fs = append(fs, &bt.Filter{Kind: "chain", Subs: []*bt.Filter{a, {Kind: "interleave", Subs: []*bt.Filter{b, {Kind: "chain", Subs: []*bt.Filter{d, e}}}}}})
+						fs = append(fs, &bt.Filter{Kind: "cond", Pred: &bt.Filter{Kind: "chain", Subs: []*bt.Filter{a, b}}, True: &bt.Filter{Kind: "interleave", Subs: []*bt.Filter{d, e}}, False: e})
+						fs = append(fs, &bt.Filter{Kind: "interleave", Subs: []*bt.Filter{{Kind: "chain", Subs: []*bt.Filter{a, b}}, {Kind: "cond", Pred: d, True: e}}})
+					}
+				}
+			}
+		}
+	}
 	// interleave branches that reach columns out of qualifier order, followed by positional filters
 	bq := []*bt.Filter{re("qual_re", "a"), re("qual_re", "b"), re("qual_re", "c"), re("qual_re", "d"), re("qual_re", "c|d"), fn("row_offset", 2), fn("row_offset", 4), fn("row_limit", 1),
 		{Kind: "col_range", Fam: "f", SK: 1, Start: []byte("c")}, {Kind: "ts_range", T0: 2000}, re("val_re", "a1|d1")}
